@@ -42,7 +42,8 @@ CHECK = {
         suite("batch", "c02", 120, 1500, stdin=True, args=["-suite", "batch"], timeout={"quick": 300, "thorough": 900}),
         suite("net", "c02", 8, 80, stdin=True, args=["-suite", "net"], timeout={"quick": 300, "thorough": 1200}),
     ],
-    "lean_sources": ["ClusterVerif/Model/C02.lean", "ClusterVerif/Spec/C02.lean", "ClusterVerif/Lemmas/C02.lean"],
+    "gen": [{"pkg": "extract_c02", "out": "lean/ClusterVerif/Gen/C02.lean"}],
+    "lean_sources": ["ClusterVerif/Model/C02Source.lean", "ClusterVerif/Gen/C02.lean", "ClusterVerif/Model/C02.lean", "ClusterVerif/Spec/C02.lean", "ClusterVerif/Lemmas/C02.lean"],
     "rule": "set: 2-3 real go-ds-crdt replicas, 2-12 puts/deletes/batches over 1-3 keys, scripted deliveries (old, repeated, newest-first), "
             "final full exchange; thorough: every third case delivers a <=5-delta history to a third replica in the k-th of all permutations. "
             "batch: one real crdt.Consensus, batching off / size 1,2,3,5 / age 60ms, queue 50 or size..size+2, bursts against a worker held inside "
@@ -72,5 +73,5 @@ META = {
             "compared) and on a real crdt.Consensus with a controllable datastore (results, pinset, Track/Untrack sequence compared), plus networked peers.",
     "note": "Trusted: Lean kernel, hand-written model/spec, harness (datastore wrapper, broadcaster, value numbering), pubsub in the net suite. "
             "Known findings K05/K05b/K05c/K05d are dependency defects (go-ds-crdt v0.1.21), each with a proved witness and a narrow signature.",
-    "technique": "Lean 4 theorems over a replicated-set model and a batching-worker step model + differential correspondence on real go-ds-crdt replicas and a real crdt.Consensus",
+    "technique": "regenerated source text of the anchored functions checked against the transcribed snapshot (rfl) + Lean 4 theorems over a replicated-set model and a batching-worker step model + differential correspondence on real go-ds-crdt replicas and a real crdt.Consensus",
 }
